@@ -153,7 +153,8 @@ def judge(prog: Program, ref: dict[str, Any], ex: Exec, res: Any, fs: dict[str, 
     cls = problems[0][0]
     msg = f"after {where}: " + " || ".join(f"{c}: {m}" for c, m in problems)
     return [V("C01", cls, msg, sig=f"C01:{cls}@{site}", site=site, sites=[c["site"] for c in w.crashes],
-              classes=[c for c, _ in problems], recov=_recovery_actions(w, h))]
+              classes=[c for c, _ in problems], recov=_recovery_actions(w, h),
+              site_recov=[f"{c['site']}=>{r}" for c, r in zip(w.crashes, _recovery_actions(w, h))])]
 
 
 def _recovery_actions(w: Any, h: Any) -> list[str]:
@@ -182,6 +183,8 @@ def _recovery_actions(w: Any, h: Any) -> list[str]:
         for r in h.audit:
             if r["kind"] != "q_ins" or ctx_handler(r["ctx"]) != "recovery":
                 continue
+            if str(r["ctx"] or "").split("|")[0] != str(int(c.get("inc", 0)) + 1):
+                continue        # the sweep that answers this crash runs in the next incarnation
             q = payload.get(r["row_id"], {})
             if sid and q.get("stage_id") == sid and (not q.get("task_id") or not tid or q.get("task_id") == tid or True):
                 acts.add(str(r["new"]))
